@@ -25,7 +25,7 @@ def owner(clause):
     return True
 
 
-SPECIALS = [',', '"', ' ', "'", ';', '\t', '""', ', ', ' ,"']
+SPECIALS = [',', '"', ' ', "'", ';', '\t', '""', ', ', ' ,"', '\x0b', '\x0c', '\x1c', '\x1d', '\x1e', '\x85', '\x1c12', '\x1d0']
 
 
 def cell_text(r, n, latin):
@@ -276,6 +276,11 @@ def run(rep, wd, tier, seed):
     rep.extra['columns_used'] = sorted({c['name'] for x in results for row in x['rin'] for c in row})
     rep.sample({'table': results[1]['_desc'], 'first_row': {c['name']: ''.join(map(chr, c['text'])) for c in results[1]['rin'][0]}})
     rep.replayed += len(results)
+    # which configuration file the commands use (columns, layouts): spec/ToolConfig.tla, 16 environments on get_config
+    from . import x01
+    was = rep.exhaustive
+    x01.run(rep, wd, tier, seed)
+    rep.exhaustive = was
 
 
 def replay(rep, wd, payload):
